@@ -995,6 +995,7 @@ def build_files(results):
         txt += "Eval vm_compute in (chk_guard cs_all).\n"
         txt += "Eval vm_compute in (chk_eval cs_ev samples).\n"
         txt += "Eval vm_compute in (chk_thm cs_all samples).\n"
+        txt += "Eval vm_compute in (chk_mixed cs_all).\n"
         files.append((f"x{fi:04d}", txt, [r["id"] for r in rs]))
     return files
 
@@ -1051,7 +1052,8 @@ def collect(tier, seed, jobs=16, only=None, progs=None):
     t1 = time.time()
     mismatches, coq_err = [], []
     guard_out, eval_codes, thm_codes = set(), collections.Counter(), collections.Counter()
-    eval_dis, thm_fail, eval_only_shadow = [], [], []
+    mixed, literal = set(), set()
+    eval_dis, thm_fail, eval_only_shadow, eval_dis_ids = [], [], [], []
     checked = set()
     if ok_vo:
         run_dir = f"{RUN_DIR}.{os.getpid()}"
@@ -1067,11 +1069,11 @@ def collect(tier, seed, jobs=16, only=None, progs=None):
                 coq_err.append(dict(file=name, programs=len(ids_), error=(so + se)[-600:] or f"coqc exit code {rc} (timeout?)"))
                 continue
             vals = C.parse_results(so)
-            if len(vals) != 5:
-                coq_err.append(dict(file=name, error=f"5 evaluations expected, {len(vals)} printed"))
+            if len(vals) != 6:
+                coq_err.append(dict(file=name, error=f"6 evaluations expected, {len(vals)} printed"))
                 continue
             try:
-                lt, ls, lg, le, lth = [C.parse_N_list(v) for v in vals]
+                lt, ls, lg, le, lth, lmx = [C.parse_N_list(v) for v in vals]
             except Exception:
                 coq_err.append(dict(file=name, error="unparsable output: " + so[-300:]))
                 continue
@@ -1081,10 +1083,16 @@ def collect(tier, seed, jobs=16, only=None, progs=None):
                 mismatches.append(dict(kind=TRANS_CODES.get(code % 10, str(code % 10)), source=r["src"], origin=r["origin"],
                                        implementation_raised=r.get("raised"), file=name))
             guard_out.update(lg)
+            for code in lmx:
+                if code % 10 in (1, 3):
+                    mixed.add(code // 10)
+                if code % 10 in (2, 3):
+                    literal.add(code // 10)
             for code in le:
                 eval_codes[code % 10] += 1
                 if code % 10 == 1:
                     eval_dis.append(by_id[code // 10]["src"])
+                    eval_dis_ids.append(code // 10)
                 if code % 10 == 2:
                     eval_only_shadow.append(by_id[code // 10]["src"])
             for code in lth:
@@ -1097,12 +1105,19 @@ def collect(tier, seed, jobs=16, only=None, progs=None):
         coq_err.append(dict(file="(theories)", error=log))
     t_coq = time.time() - t1
     okr = [r for r in results if r["status"] == "ok"]
-    # a difference between the implementation and the shadow run on a program where the model's
-    # evaluator ALSO differs from the shadow run is a disagreement of the two reference
-    # semantics, reported under evaluator_vs_shadow, not an implementation failure
-    dis = set(eval_dis)
-    impl_vs_shadow_only = [f for f in impl_failures if f["source"] in dis]
-    impl_failures = [f for f in impl_failures if f["source"] not in dis]
+    # harness/shadow.py keeps CPython's dynamic width across control flow (a deliberate
+    # simplification): a program with an if-expression whose branches have different translated
+    # types is widened by the code and not by the shadow run.  Disagreements of the evaluator (and
+    # of the implementation) with the shadow run on such programs are a MEASURED number, not a
+    # failure; a disagreement on any other program is reported as unexplained.
+    # (second class of the same kind: a name bound to a bare integer literal keeps the literal's
+    # constant width in the code, and is an untyped Python int in the shadow run)
+    dis_explained = {by_id[i]["src"] for i in eval_dis_ids if i in mixed or i in literal}
+    dis_unexplained = sorted({by_id[i]["src"] for i in eval_dis_ids if i not in mixed and i not in literal})
+    n_dis_explained = sum(1 for i in eval_dis_ids if i in mixed)
+    n_dis_literal = sum(1 for i in eval_dis_ids if i not in mixed and i in literal)
+    impl_vs_shadow_only = [f for f in impl_failures if f["source"] in dis_explained]
+    impl_failures = [f for f in impl_failures if f["source"] not in dis_explained]
     accepted = [r for r in okr if r.get("raised") is None]
     # failures of the corollary's instance: inside the guards they would contradict the theorem
     thm_fail_in_guard = sorted({s for i, s in thm_fail if i not in guard_out})
@@ -1120,10 +1135,16 @@ def collect(tier, seed, jobs=16, only=None, progs=None):
                           constructs=dict(used.most_common()), coq_files=len(files),
                           outside_theorem_guards=len(guard_out),
                           outside_guard_examples=[by_id[i]["src"] for i in sorted(guard_out)[:40]]),
-        evaluator_vs_shadow=dict(agree=eval_codes[0], DISAGREE=eval_codes[1], only_shadow=eval_codes[2],
-                                 only_model=eval_codes[3], neither=eval_codes[4], disagreements=sorted(set(eval_dis))[:20],
-                                 disagreeing_programs=len(set(eval_dis)), only_shadow_examples=sorted(set(eval_only_shadow))[:12],
-                                 implementation_differs_from_shadow_too=len(impl_vs_shadow_only)),
+        evaluator_vs_shadow=dict(agree=eval_codes[0], only_shadow=eval_codes[2], only_model=eval_codes[3], neither=eval_codes[4],
+                                 disagree_explained_by_mixed_width_if=n_dis_explained,
+                                 programs_with_mixed_width_if=len(mixed), disagreeing_programs_explained=len(dis_explained),
+                                 disagree_explained_by_untyped_literal_name=n_dis_literal,
+                                 programs_binding_a_literal=len(literal),
+                                 DISAGREE_UNEXPLAINED=eval_codes[1] - n_dis_explained - n_dis_literal,
+                                 unexplained_programs=dis_unexplained[:20],
+                                 explained_examples=sorted(dis_explained)[:6],
+                                 only_shadow_examples=sorted(set(eval_only_shadow))[:12],
+                                 implementation_differs_from_shadow_on_explained_programs=len(impl_vs_shadow_only)),
         corollary_instances=dict(hold=thm_codes[0], FAIL=thm_codes[1], not_applicable=thm_codes[2],
                                  failing_inside_guards=thm_fail_in_guard[:10], failing_outside_guards=thm_fail_out_guard[:10]),
         harness_errors=herr, coq_errors=coq_err,
